@@ -328,7 +328,7 @@ func (p *parser) parseOtherOp() Expr {
 			return x
 		}
 		switch t.text {
-		case "||", "->", "->>", "@>", "<@":
+		case "||", "->", "->>", "@>", "<@", "@@":
 		default:
 			p.unsupported("operator %s", t.text)
 		}
@@ -555,14 +555,39 @@ func (p *parser) parseFuncCall() *FuncCall {
 // ---------- SELECT ----------
 
 func (p *parser) parseSelect() *Select {
-	if p.isKw("with") {
-		word := "WITH"
-		if p.isKwAt(1, "recursive") {
-			word = "WITH RECURSIVE"
+	var with []CTE
+	recursive := false
+	if p.acceptKw("with") {
+		recursive = p.acceptKw("recursive")
+		for {
+			cte := CTE{Name: p.ident()}
+			if p.isOp("(") {
+				cte.Cols = p.identList()
+			}
+			p.expectKw("as")
+			if p.isKw("materialized") || (p.isKw("not") && p.isKwAt(1, "materialized")) {
+				p.unsupported("[NOT] MATERIALIZED")
+			}
+			p.expectOp("(")
+			if !p.isKw("select", "with") {
+				p.unsupported("data-modifying statement in WITH")
+			}
+			cte.Sel = p.parseSelect()
+			p.expectOp(")")
+			with = append(with, cte)
+			if !p.acceptOp(",") {
+				break
+			}
 		}
-		p.unsupported("%s", word)
+		if p.isKw("search", "cycle") {
+			p.unsupported("SEARCH / CYCLE clause")
+		}
+		if !p.isKw("select") {
+			p.unsupported("WITH followed by %s", strings.ToUpper(p.peek().text))
+		}
 	}
 	first := p.parseSelectCore()
+	first.With, first.Recursive = with, recursive
 	last := first
 	for {
 		if p.isKw("intersect", "except") {
@@ -633,10 +658,17 @@ func (p *parser) parseSelectCore() *Select {
 	p.expectKw("select")
 	s := &Select{}
 	if p.acceptKw("distinct") {
-		if p.isKw("on") {
-			p.unsupported("DISTINCT ON")
+		if !p.acceptKw("on") {
+			p.unsupported("SELECT DISTINCT")
 		}
-		p.unsupported("SELECT DISTINCT")
+		p.expectOp("(")
+		for {
+			s.DistinctOn = append(s.DistinctOn, p.parseExpr())
+			if !p.acceptOp(",") {
+				break
+			}
+		}
+		p.expectOp(")")
 	}
 	p.acceptKw("all")
 	emptyList := p.isKw("from", "where", "into", "union", "order", "limit") || p.isOp(")") || p.isOp(";") || p.peek().kind == tEOF
@@ -660,8 +692,17 @@ func (p *parser) parseSelectCore() *Select {
 	if p.acceptKw("where") {
 		s.Where = p.parseExpr()
 	}
-	if p.isKw("group") {
-		p.unsupported("GROUP BY")
+	if p.acceptKw("group") {
+		p.expectKw("by")
+		if p.isKw("all", "distinct", "rollup", "cube", "grouping") || p.isOp("(") && p.peekAt(1).text == ")" {
+			p.unsupported("GROUP BY %s", strings.ToUpper(p.peek().text))
+		}
+		for {
+			s.GroupBy = append(s.GroupBy, p.parseExpr())
+			if !p.acceptOp(",") {
+				break
+			}
+		}
 	}
 	if p.isKw("having") {
 		p.unsupported("HAVING")
@@ -738,9 +779,7 @@ func (p *parser) parseAlias() (alias string, cols []string) {
 }
 
 func (p *parser) parseFromPrimary() FromItem {
-	if p.isKw("lateral") {
-		p.unsupported("LATERAL")
-	}
+	lateral := p.acceptKw("lateral")
 	if p.isKw("only") {
 		p.unsupported("ONLY")
 	}
@@ -757,7 +796,7 @@ func (p *parser) parseFromPrimary() FromItem {
 		if cols != nil {
 			p.unsupported("column aliases on a derived table")
 		}
-		return &SubqueryRef{Sel: sel, Alias: alias}
+		return &SubqueryRef{Sel: sel, Alias: alias, Lateral: lateral}
 	}
 	if p.peekAt(1).text == "(" && p.peekAt(1).kind == tOp {
 		call := p.parseFuncCall()
@@ -766,6 +805,9 @@ func (p *parser) parseFromPrimary() FromItem {
 		}
 		alias, cols := p.parseAlias()
 		return &FuncRef{Call: call, Alias: alias, ColAliases: cols}
+	}
+	if lateral {
+		p.fail("LATERAL must be followed by a subquery or a function call")
 	}
 	schema, name := p.qualifiedName()
 	if p.isOp("(") {
